@@ -60,6 +60,16 @@ pub fn storage_objects(seed: u64, n: u64) -> Vec<(&'static str, String)> {
         if !mp.is_empty() && n % 3 == 0 {
             out.push(("descriptor", format!("wsh(pk({}))", mp)));
             out.push(("descriptor-to-walletpolicy", format!("wsh(pk({}))", mp)));
+            // key expressions outside the BIP388 shape (no multipath step, extra fixed step, three
+            // alternatives, descending alternatives, hardened wildcard, no wildcard): the conversion
+            // may refuse them; what it accepts must print a template its own parser reads
+            if let (Some(a), Some(b)) = (mp.find("/<"), mp.rfind("/*")) {
+                let (head, _) = mp.split_at(a);
+                let _ = b;
+                for tail in ["/*", "/5/<0;1>/*", "/<0;1;2>/*", "/<1;0>/*", "/<0;1>/*h", "/<0;1>", "/0/*"] {
+                    out.push(("descriptor-to-walletpolicy", format!("wpkh({}{})", head, tail)));
+                }
+            }
             out.push(("pubkey", mp));
         }
     }
